@@ -538,7 +538,8 @@ Section PathHist.
     pose proof (updateScores_pgood succ rk Hrk bd g I (depth0_root g D NN) start Ks) as U.
     assert (G0 : forall x, In x (bk_keys g) -> pgood g (bk_sc g) x).
     { intros x Kx. unfold pgood. rewrite <- (P x Kx). apply eq_patherr_ext; try reflexivity. intros mp _. auto. }
-    specialize (U G0 E q Kq). unfold pgood in U. rewrite <- U.
+    specialize (U G0 E q Kq). unfold pgood in U.
+    apply eq_trans with (y := eq_patherr (set_sc g (bk_sc (updateScores true bd g start))) q); [|exact U].
     apply eq_patherr_ext; unfold parents, depth, score_of; rewrite ?R, ?Pa, ?Dp; try reflexivity.
     intros mp _. auto.
   Qed.
@@ -564,16 +565,25 @@ Section PathHist.
     destruct (N.eq_dec q c) as [->|Hqc].
     - (* the node that got the new parent *)
       unfold eq_patherr. rewrite R1, !Sc. destruct (N.eqb c (bk_root g)); [reflexivity|].
+      assert (Pc : parents g1 c = ins_parent (bk_info g) m p (parents g c)).
+      { unfold g1. rewrite parents_link, N.eqb_refl. reflexivity. }
       assert (Cand : pe_candidates g1 c = pe_candidates g c).
-      { unfold pe_candidates. rewrite !Sc. rewrite parents_link, N.eqb_refl.
+      { unfold pe_candidates. rewrite Pc.
         destruct Hc as [Hn|[Hfin Hp]].
-        - rewrite !flat_map_nil; [reflexivity| |]; intros mp _; rewrite Hn, Z.eqb_refl; rewrite ?orb_true_r; reflexivity.
-        - rewrite (Par1 c Hfin). rewrite flat_map_ins_parent.
-          + apply flat_map_ext_in. intros mp _. rewrite !Sc. reflexivity.
-          + cbn [snd]. rewrite Sc. destruct Hp as [H|[H|H]]; rewrite H, Z.eqb_refl; rewrite ?orb_true_r; reflexivity. }
+        - rewrite !flat_map_nil; [reflexivity| |]; intros mp _; cbn zeta; rewrite ?Sc; rewrite Hn, Z.eqb_refl; rewrite ?orb_true_r; reflexivity.
+        - transitivity (flat_map (fun mp : N * N =>
+              let ps := score_of g (snd mp) in
+              if (s_pew ps =? INVALID_SCORE) || (s_peb ps =? INVALID_SCORE) ||
+                 (s_nm (score_of g c) =? INVALID_SCORE) || (s_nm ps =? INVALID_SCORE) then []
+              else let delta := s_nm ps - negateScore (s_nm (score_of g c)) in
+                   if Z.odd (depth g c) then [(s_pew ps + delta, s_peb ps)] else [(s_pew ps, s_peb ps + delta)])
+              (ins_parent (bk_info g) m p (parents g c))).
+          + apply flat_map_ext_in. intros mp _. cbn zeta. rewrite !Sc. rewrite (Par1 c Hfin). reflexivity.
+          + apply flat_map_ins_parent. cbn zeta. cbn [snd].
+            destruct Hp as [H|[H|H]]; rewrite H, Z.eqb_refl; rewrite ?orb_true_r; reflexivity. }
       rewrite Cand. reflexivity.
     - apply eq_patherr_ext; rewrite ?R1, ?Sc; try reflexivity.
-      + rewrite parents_link. destruct (N.eqb_spec q c); [contradiction|reflexivity].
+      + unfold g1. rewrite parents_link. destruct (N.eqb_spec q c); [contradiction|reflexivity].
       + apply Par1. apply FK; assumption.
       + intros mp _. rewrite !Sc. auto.
   Qed.
@@ -698,13 +708,11 @@ Section PathHist.
     (* DI of g3: recovered from the depth invariant of the final state *)
     assert (D3 : DI g3).
     { destruct (updateScores_fields true bd g3 h) as [K4 [F4 [C4 [P4 [R4 [D4 _]]]]]].
-      apply (DI_frame (set_state (updateScores true bd g3 h) h ST_INITIALIZED)); try (symmetry; assumption); [|exact Dfull].
-      cbn [set_state set_info bk_keys]. symmetry. exact K4. }
+      apply (DI_frame (set_state (updateScores true bd g3 h) h ST_INITIALIZED)); [| | | |exact Dfull];
+        cbn [set_state set_info bk_root bk_keys bk_parents bk_depth]; symmetry; assumption. }
     assert (E3 : bk_err (updateScores true bd g3 h) = 0%N) by exact E.
     assert (PI4 : PI (updateScores true bd g3 h)).
-    { apply PI_updateScores; try assumption.
-      - intro q. apply NN3.
-      - rewrite K3, K2. exact Kh0. }
+    { apply PI_updateScores; try assumption. rewrite K3, K2. exact Kh0. }
     destruct (updateScores_fields true bd g3 h) as [K4 [F4 [C4 [P4 [R4 [D4 _]]]]]].
     apply (PI_frame (updateScores true bd g3 h)); try reflexivity. exact PI4.
   Qed.
@@ -719,21 +727,21 @@ Section PathHist.
     split; [exact G'|]. split; [exact D'|].
     destruct W as [W X]. destruct o as [h addr pl cl|h mv s t|h|h|recs addrs sl]; cbn [apply_op] in *.
     - destruct X as [X1 X2]. apply PI_opAdd; assumption.
-    - unfold opSet in *. apply PI_updateScores; try assumption.
-      + apply Inv_set_info; [apply (gi_inv succ wtm bd g G)|exact W].
-      + apply (DI_frame g); try reflexivity. exact D.
-      + intro q. apply (gi_nonneg succ wtm bd g G).
-      + apply (PI_frame g); try reflexivity. exact P.
-    - unfold opPend in *. apply PI_updateScores; try assumption.
-      + apply Inv_set_pending. apply (gi_inv succ wtm bd g G).
-      + apply (DI_frame g); try reflexivity. exact D.
-      + intro q. apply (gi_nonneg succ wtm bd g G).
-      + apply (PI_frame g); try reflexivity. exact P.
-    - unfold opUnpend in *. apply PI_updateScores; try assumption.
-      + apply Inv_set_pending. apply (gi_inv succ wtm bd g G).
-      + apply (DI_frame g); try reflexivity. exact D.
-      + intro q. apply (gi_nonneg succ wtm bd g G).
-      + apply (PI_frame g); try reflexivity. exact P.
+    - unfold opSet in *. apply PI_updateScores; try assumption;
+        try (intro q; apply (gi_nonneg succ wtm bd g G));
+        try (apply Inv_set_info; [apply (gi_inv succ wtm bd g G)|exact W]);
+        try (apply (DI_frame g); try reflexivity; exact D);
+        try (apply (PI_frame g); try reflexivity; exact P).
+    - unfold opPend in *. apply PI_updateScores; try assumption;
+        try (intro q; apply (gi_nonneg succ wtm bd g G));
+        try (apply Inv_set_pending; apply (gi_inv succ wtm bd g G));
+        try (apply (DI_frame g); try reflexivity; exact D);
+        try (apply (PI_frame g); try reflexivity; exact P).
+    - unfold opUnpend in *. apply PI_updateScores; try assumption;
+        try (intro q; apply (gi_nonneg succ wtm bd g G));
+        try (apply Inv_set_pending; apply (gi_inv succ wtm bd g G));
+        try (apply (DI_frame g); try reflexivity; exact D);
+        try (apply (PI_frame g); try reflexivity; exact P).
     - destruct X.
   Qed.
 
